@@ -62,7 +62,7 @@ pub fn run_c10(run: &mut Run, replay: Option<&std::path::Path>) -> anyhow::Resul
             }
             let mut out = vec![(format!("listener.reset limit={}", limit.map(|x| x.to_string()).unwrap_or_else(|| "none".into())), "ok".to_string(), None)];
             let mut aff: std::collections::HashMap<u16, String> = Default::default();
-            for (kind, peer, a) in plan.iter() {
+            for (opi, (kind, peer, a)) in plan.iter().enumerate() {
                 let d = &dialers[(*peer - 2) as usize];
                 match kind.as_str() {
                     "known" => {
@@ -75,7 +75,10 @@ pub fn run_c10(run: &mut Run, replay: Option<&std::path::Path>) -> anyhow::Resul
                                 "allowed" => PeerAffinity::Allowed,
                                 _ => PeerAffinity::Never,
                             };
-                            l.net.known_peers().insert(PeerInfo { peer_id: d.id, affinity, address: vec![] });
+                            // in-place updates with and without addresses (only High peers are ever dialled, so an
+                            // address on an Allowed / Never entry changes nothing else)
+                            let address = if a != "high" && (opi / 2 + *peer as usize) % 2 == 0 { vec![d.addr.into()] } else { vec![] };
+                            l.net.known_peers().insert(PeerInfo { peer_id: d.id, affinity, address });
                             aff.insert(*peer, a.clone());
                         }
                         out.push((format!("listener.known peer={peer} aff={a}"), "ok".into(), None));
@@ -156,5 +159,6 @@ pub fn run_c10(run: &mut Run, replay: Option<&std::path::Path>) -> anyhow::Resul
         }
         run.count("limit", &format!("{limit:?}"));
     }
+    crate::peers::blocked_handler(run, if run.quick() { 1 } else { 4 }, "limit")?;
     Ok(())
 }
